@@ -64,6 +64,11 @@ def build(c, p):
         kw = {} if c.get("value") is None else {"value": pyint(c["value"])}
         return RunLength2dArray.from_intervals(arr(c["starts"], "int64"), arr(c["ends"], "int64"), c["row_len"], **kw)
     if p["variant"] == "ragged":
+        if p.get("src_sel"):
+            base = c["base_rows"]          # the ragged source is itself a pending selection of a larger array
+            ra = RaggedArray(arr([x for r in base for x in r], "int64"), arr([len(r) for r in base], "int64"))
+            ra = ra[{"rev": slice(None, None, -1), "from1": slice(1, None), "step2": slice(None, None, 2)}[p["src_sel"]]]
+            return RunLengthRaggedArray.from_ragged_array(ra)
         ra = RaggedArray(arr([x for r in rows for x in r], "int64"), arr([len(r) for r in rows], "int64"))
         return RunLengthRaggedArray.from_ragged_array(ra)
     m = arr([x for r in rows for x in r], "int64").reshape(len(rows), len(rows[0]))
@@ -309,6 +314,11 @@ def gen(E, p):
                 E.branch(r[k] == r[k + 1])
         return rows
     rows = c["rows"] = mkrows("")
+    if p.get("src_sel"):
+        c["base_rows"] = rows
+        rows = c["rows"] = rows[{"rev": slice(None, None, -1), "from1": slice(1, None), "step2": slice(None, None, 2)}[p["src_sel"]]]
+        if not rows:
+            raise __import__("symx.engine", fromlist=["x"]).PathPruned()
     if p.get("pre"):
         R0 = len(rows)
         if p["pre"] == "list":
@@ -421,6 +431,9 @@ def jobs(tier, seed):
     out.append(dict(base, variant="2d", op="colany"))
     out.append(dict(base, variant="2d", op="intervals"))
     out.append(dict(base, variant="ragged_from_matrix", op="roundtrip"))
+    for sel in ("rev", "from1", "step2"):
+        for op in ("roundtrip", "shape", "rowsum", "colsum"):
+            out.append(dict(base, variant="ragged", op=op, src_sel=sel, R=3, L=2))
     # interval tables (runs that reach the right edge, several cells long; any run value) under the same operations
     for op in ("roundtrip", "shape", "rowint", "rowsum", "rowany", "rowall", "colsum", "colany", "rowlist", "rowmask", "neg", "rs", "sr", "npsum"):
         out.append(dict(base, variant="intervals", op=op, value=op in ("rowsum", "colsum", "roundtrip", "npsum", "rs"), L=3))
